@@ -482,7 +482,7 @@ void decl_summary(std::ostringstream& os, const std::vector<MDecl>& ds)
 {
     for (auto& d : ds)
         if (d.kind == MDecl::VAR)
-            os << "  var " << d.name << " " << tagstr(d.tags) << "\n";
+            os << "  var " << d.name << " dims=" << d.dims << " " << tagstr(d.tags) << "\n";
     for (auto& d : ds)
         if (d.kind == MDecl::FUN)
             os << "  fun " << d.name << "\n";
@@ -498,6 +498,8 @@ std::string expected_summary(const Model& m, bool)
     os << "globals\n";
     decl_summary(os, m.gdecls);
     for (auto& t : m.templs) {
+        if (t.dynamic)
+            continue;  // kept in the document's list of dynamic templates, not among the templates
         os << "template " << t.name << "\n";
         for (auto& p : t.params)
             os << "  param " << p.name << " " << (p.byref ? "ref" : "val") << " " << tagstr(p.tags) << "\n";
